@@ -41,6 +41,14 @@ def consts(tier: str, part: str):
         base.update({"Topos": g.tla_set(["row4"]), "RotChoice": "{33, 42}",
                      "ChopOpts": g.tla_set(["A2"]), "MaxChopped": "0", "Cover": "TRUE", "AllOrders": "FALSE"})
         return base
+    if part == "chain5":
+        # a row of FIVE, one chop per family, every insertion order: the two directions the blocks share are chopped on any two
+        # blocks - up to four apart, so that the blocks in between are completed in two steps, and a whole sweep of the
+        # fix-point loop may define directions without completing any block (progress all the same)
+        # (quick: the row as it stands and in two fixed insertion orders, all 25 placements each; thorough: all 120 orders)
+        base.update({"Topos": g.tla_set(["row5", "row5a", "row5b"] if tier == "quick" else ["row5"]), "RotChoice": "{1}", "Rounds": "1",
+                     "ChopOpts": g.tla_set(["A2"]), "MaxChopped": "0", "Cover": "TRUE", "AllOrders": "FALSE" if tier == "quick" else "TRUE"})
+        return base
     if tier == "quick":
         if part == "free":
             base.update({"Topos": g.tla_set(["face2", "edge2", "hook3"]), "RotChoice": "{1, 30}",
@@ -97,10 +105,23 @@ def run(ctx: Ctx) -> None:
     rng = random.Random(ctx.seed + 2)
     n_sched = 2 if ctx.tier == "quick" else 4
     limit = 260 if ctx.tier == "quick" else 4000
-    for part in ("free", "cover", "chain", "multi", "swap4") + (("cover4", "live") if ctx.tier == "thorough" else ()):
+    for part in ("free", "cover", "chain", "multi", "swap4", "chain5") + (("cover4", "live") if ctx.tier == "thorough" else ()):
         c = consts(ctx.tier, part)
         cfgs = g.model_check(ctx, c, INVS, props=["Terminates"] if ctx.tier == "thorough" and part in ("swap4", "live", "multi") else [],
                              timeout=3000, emit=True).records
+        if part == "chain5":
+            # replayed first: the placements with the two shared directions chopped at opposite ends of the row, in every order emitted
+            def ends(cfg):
+                owners = [b for b, blk in enumerate(cfg["chops"]) if sum(1 for ax in blk if ax) > 1]
+                return len(owners) == 2 and [sum(1 for ax in cfg["chops"][b] if ax) for b in owners] == [2, 2] \
+                    and {min(cfg["verts"][b]) for b in owners} == {min(min(v) for v in cfg["verts"]), max(min(v) for v in cfg["verts"])}
+            far = [c for c in cfgs if ends(c)]
+            if len(far) < (6 if ctx.tier == "quick" else 240):
+                raise MachineryError(f"chain5: only {len(far)} far-end placements among {len(cfgs)} configurations")
+            rest = [c for c in cfgs if not ends(c)]
+            rng.shuffle(rest)
+            cfgs = far + rest[: max(0, limit - len(far))]
+            ctx.exhaustive = False
         if len(cfgs) > limit:
             rng.shuffle(cfgs)
             # prefer configurations where something has to propagate
